@@ -165,8 +165,10 @@ add("C14",
     "documented formula applied to those rows with the original's metric, collapses under the "
     "identity sampler for all three methods, and results are reproducible per seed and differ "
     "across seeds.",
-    "utils.bootstrap_ci is trusted here as the formula (it is C13's subject); 'different seeds "
-    "give different rows' has collision probability < 1e-10 by construction of the metric.")
+    "bootstrap_ci is compared both with utils.bootstrap_ci and with the independent stdlib "
+    "re-implementation of the documented formulas (C13's reference); several configurations in a "
+    "row on one object are compared with fresh equal objects; 'different seeds give different "
+    "rows' has collision probability < 1e-10 by construction of the metric.")
 
 add("C15",
     "property-based testing: Hypothesis-generated score sets and support specifications with all "
@@ -188,8 +190,10 @@ add("C16",
     "thresholds and NaN-free ordered (n,2) bands (roc_with_ci also within [0,1]) under 5 built-in "
     "sampling configurations and the identity sampler; under the identity sampler roc_with_ci "
     "equals the closed form incl. the rule-of-three replacement exactly at observed rates 0/1. "
-    "Two known findings (fixed_width_band_ci search initialisation) are excluded by narrow "
-    "predicates and reported as KNOWN-FINDING.",
+    "The closed form is also enumerated for every class size 1..400 (quick) / 1..3000 (thorough) "
+    "plus 1e5..1e12 and on curves with 700-4200 support points. Two known findings "
+    "(fixed_width_band_ci search initialisation) are excluded by narrow predicates and reported as "
+    "KNOWN-FINDING.",
     "Closed form uses the object's own threshold_at_*/fnr/fpr; n of the rule of three may be scored "
     "or all samples (not stated by the property); fixed_width_band_ci only on spanning supports.")
 
